@@ -19,7 +19,7 @@ ASSUMPTIONS = [
     "body kinds other than the JSON object are exercised at 10 representative statuses (100, 302, 400, 404, 422, 499, 500, 503, 520, 599), not at all 400",
     "an operation whose generated module cannot be imported is reported under its own clause (no call is possible, so no error can be raised)",
 ]
-BOUND = {"quick": "166 declared sets of size<=3 over 10 elements x (400 statuses + 8 body kinds x 10 statuses) x 2 transports (+ component-ref variant on the custom transport)", "thorough": "same (the space is complete at this bound) + sets of size 4"}
+BOUND = {"quick": "166 declared sets of size<=3 over 10 elements x (400 statuses + 15 further body / header kinds x 10 statuses), 12 elements incl. streaming 200s, x 2 transports (+ component-ref variant on the custom transport)", "thorough": "same (the space is complete at this bound) + sets of size 4"}
 CHUNK = 1
 PACK = 6
 
